@@ -67,6 +67,7 @@ def aligned_up(v, a):
 
 @contract("rig/place_and_route/allocate/greedy.py::allocate@forbody:4")
 class AllocateOneResource:
+    fragment_head = "for resource, requirement in iteritems(vertices_resources[vertex]):"
     """One vertex, one resource: ONE iteration of `for resource, requirement in iteritems(vertices_resources[vertex])` - the
     loop that proposes ranges until one is free, and the two statements that record the range and advance the chip's pointer.
     Extracted on every run as a function of its free variables (what the extraction drops: everything of allocate() outside
